@@ -71,9 +71,9 @@ Print Assumptions C15_up_to_max_accepted.
    part of the sequential refinement for batches within the guards.) *)
 Theorem C15_wal_too_big_refused :
   forall c w ls e,
-    existsb (fun l => MaxEntrySize <? Codec.enc_len l) ls = true ->
-    fst (fst (Model.store_logs c w ls e)) <> Model.ROk.
-Proof. exact TooBigFacts.store_logs_too_big. Qed.
+    existsb (fun l => MaxEntrySize <? RW.Wal.Model.enc_len l) ls = true ->
+    fst (fst (RW.Wal.Model.store_logs c w ls e)) <> RW.Wal.Model.ROk.
+Proof. exact RW.Wal.TooBigFacts.store_logs_too_big. Qed.
 Print Assumptions C15_wal_too_big_refused.
 
 (* non-vacuity: an entry larger than the whole segment (limit 64) in the middle
